@@ -3,6 +3,7 @@ package ast
 import (
 	"bytes"
 	"fmt"
+	"sort"
 	"strings"
 
 	"github.com/risor-io/risor/internal/tmpl"
@@ -267,11 +268,33 @@ func (m *Map) Literal() string { return m.token.Literal }
 
 func (m *Map) Items() map[Expression]Expression { return m.items }
 
+// Keys returns the key expressions in the order they appear in the source.
+// The items are held in a Go map, whose iteration order is random; anything
+// whose outcome must not vary from run to run (evaluation order of the entries,
+// which of two duplicate keys wins, the printed form) goes through this.
+func (m *Map) Keys() []Expression {
+	keys := make([]Expression, 0, len(m.items))
+	for key := range m.items {
+		keys = append(keys, key)
+	}
+	sort.SliceStable(keys, func(i, j int) bool {
+		a, b := keys[i].Token().StartPosition, keys[j].Token().StartPosition
+		if a.Line != b.Line {
+			return a.Line < b.Line
+		}
+		if a.Column != b.Column {
+			return a.Column < b.Column
+		}
+		return a.Char < b.Char
+	})
+	return keys
+}
+
 func (m *Map) String() string {
 	var out bytes.Buffer
 	pairs := make([]string, 0)
-	for key, value := range m.items {
-		pairs = append(pairs, key.String()+":"+value.String())
+	for _, key := range m.Keys() {
+		pairs = append(pairs, key.String()+":"+m.items[key].String())
 	}
 	out.WriteString("{")
 	out.WriteString(strings.Join(pairs, ", "))
